@@ -121,6 +121,7 @@ func c08(r *core.Report) {
 	lookupFolding(r, "C08.lookup")
 	requiredExemption(r, "C08.reqexempt")
 	c08AsResponse(r)
+	c08LookupKeys(r)
 	p := r.Prog
 	info := p.Pkg("openapi3filter").TypesInfo
 	oinfo := p.Pkg("openapi3").TypesInfo
